@@ -105,6 +105,29 @@ RT_MEMBERS = [("L.members", "len(class_vars(self)) >= g_cv0 + len(var_names) and
                             "all(class_vars(self)[q] == var_names[q - g_cv0][1] for q in range(g_cv0, g_cv0 + len(var_names)))")]
 RT_BOOK = [("L.booked", "g_book != None and g_bk0 >= 0 and g_bk0 < len(field(field(gc_of(self), '_book_block'), '_statements')) and "
                         "field(field(gc_of(self), '_book_block'), '_statements')[g_bk0] == g_book")]
+IntIntMap = TMap(Int, Int)
+CLEAR = "func_adl_xAOD.common.statement.container_clear"
+
+
+def is_coll(rep):
+    return isinst(rep, "func_adl_xAOD.common.cpp_representation.cpp_sequence") or isinst(rep, "func_adl_xAOD.common.cpp_representation.cpp_collection")
+
+
+def stmts(b):
+    return field(b, "_statements")
+
+
+RT_CLEAR = [
+    ("F.fill_in_place", "g_fblock != None and g_f0 >= 0 and g_f0 < len(stmts(g_fblock)) and stmts(g_fblock)[g_f0] == g_fill and "
+                        "len(cursor(self)) >= 1 and top_block(cursor(self)) == g_fblock"),
+    ("F.only_clears_after_fill", "all(cls_is(stmts(g_fblock)[q], '" + CLEAR + "') and 0 <= g_src[q] and g_src[q] < _i and "
+                                 "is_coll(col_values(seq_values)[g_src[q]]) and "
+                                 "field(stmts(g_fblock)[q], '_collection', '" + CLEAR + "') == var_names[g_src[q]][1] "
+                                 "for q in range(g_f0 + 1, len(stmts(g_fblock))))"),
+    ("F.every_vector_column_cleared", "all(implies(is_coll(col_values(seq_values)[k]), g_f0 < g_clr[k] and g_clr[k] < len(stmts(g_fblock)) and "
+                                      "cls_is(stmts(g_fblock)[g_clr[k]], '" + CLEAR + "') and "
+                                      "field(stmts(g_fblock)[g_clr[k]], '_collection', '" + CLEAR + "') == var_names[k][1]) for k in range(0, _i))"),
+]
 RT_INV = CVC_LOOP_INV
 
 contract(TR + "query_ast_visitor.call_ResultTTree", props=["C03", "C05", "C09", "C02"], replay="ttree_label_mismatch",
@@ -113,10 +136,16 @@ contract(TR + "query_ast_visitor.call_ResultTTree", props=["C03", "C05", "C09", 
                                   ("cursor", "len(cursor(self)) >= 1 and all(b != None and live(b) for b in cursor(self))"),
                                   ("book", "field(gc_of(self), '_book_block') != None and live(field(gc_of(self), '_book_block'))")],
          modifies=CVC_MODIFIES + ["_tree_name", "_leaves", "filename", "treename"], may_raise=["Exception"], strict=False,
-         local_sorts=dict(column_names=TList(Str), var_names=LEAVES, g_cv0=Int, g_book=Ref, g_bk0=Int, g_desc=Ref),
-         ghost_init=["g_cv0 = 0", "g_book = None", "g_bk0 = 0", "g_desc = None"],
+         local_sorts=dict(column_names=TList(Str), var_names=LEAVES, g_cv0=Int, g_book=Ref, g_bk0=Int, g_desc=Ref,
+                          g_fblock=RefOf(BLOCK), g_f0=Int, g_fill=Ref, g_src=IntIntMap, g_clr=IntIntMap),
+         ghost_init=["g_cv0 = 0", "g_book = None", "g_bk0 = 0", "g_desc = None", "g_fblock = None", "g_f0 = 0", "g_fill = None",
+                     "g_src = any_value(IntIntMap)", "g_clr = any_value(IntIntMap)"],
          ghost={"after:var_names = [": ["g_cv0 = len(class_vars(self))"],
                 "after:crep.set_rep(": ["g_desc = rep_of(node)"],
+                "after:self._gc.add_statement(self.create_ttree_fill_obj(": [
+                    "g_fblock = top_block(cursor(self))", "g_f0 = len(stmts(g_fblock)) - 1", "g_fill = stmts(g_fblock)[g_f0]"],
+                "after:self._gc.add_statement(statement.container_clear(": [
+                    "g_src = store(g_src, len(stmts(g_fblock)) - 1, _i)", "g_clr = store(g_clr, _i, len(stmts(g_fblock)) - 1)"],
                 "after:self._gc.add_book_statement(": ["g_bk0 = len(field(field(gc_of(self), '_book_block'), '_statements')) - 1",
                                                        "g_book = field(field(gc_of(self), '_book_block'), '_statements')[g_bk0]"]},
          ensures=CVC_ENSURES + [
@@ -129,6 +158,15 @@ contract(TR + "query_ast_visitor.call_ResultTTree", props=["C03", "C05", "C09", 
              ("one_booking_statement@C03", "final_g_book != None and isinst(final_g_book, '" + "func_adl_xAOD.common.statement.book_ttree" + "') and "
                                            "field(final_g_book, '_tree_name') == final_tree_name and seq_eq(field(final_g_book, '_leaves'), final_var_names) and "
                                            "field(field(gc_of(self), '_book_block'), '_statements')[final_g_bk0] == final_g_book"),
+             ("fill_then_clear_every_vector_column@C05,C03",
+              "final_g_fill != None and isinst(final_g_fill, 'func_adl_xAOD.common.statement.ttree_fill') and "
+              "field(final_g_fill, '_tree_name') == final_tree_name and stmts(final_g_fblock)[final_g_f0] == final_g_fill and "
+              "all(cls_is(stmts(final_g_fblock)[q], '" + CLEAR + "') and is_coll(col_values(final_seq_values)[final_g_src[q]]) and "
+              "field(stmts(final_g_fblock)[q], '_collection', '" + CLEAR + "') == final_var_names[final_g_src[q]][1] "
+              "for q in range(final_g_f0 + 1, len(stmts(final_g_fblock)))) and "
+              "all(implies(is_coll(col_values(final_seq_values)[k]), final_g_f0 < final_g_clr[k] and final_g_clr[k] < len(stmts(final_g_fblock)) and "
+              "field(stmts(final_g_fblock)[final_g_clr[k]], '_collection', '" + CLEAR + "') == final_var_names[k][1]) "
+              "for k in range(0, len(final_var_names)))"),
              ("descriptor@C03", "final_g_desc != None and cls_is(final_g_desc, 'func_adl_xAOD.common.result_ttree.cpp_ttree_rep') and "
                                 "field(final_g_desc, 'treename') == final_tree_name and field(final_g_desc, 'filename') == 'ANALYSIS.root' and rep_of(node) == result"),
          ],
@@ -140,7 +178,7 @@ contract(TR + "query_ast_visitor.call_ResultTTree", props=["C03", "C05", "C09", 
                         invariant=RT_INV + RT_COLS + [("L.appended", "len(class_vars(self)) == g_cv0 + _i and "
                                                                       "all(class_vars(self)[q] == var_names[q - g_cv0][1] for q in range(g_cv0, g_cv0 + _i))")]),
                 2: dict(modifies=CVC_MODIFIES, invariant=RT_INV + RT_COLS + RT_MEMBERS + RT_BOOK + [("L.book", "field(gc_of(self), '_book_block') == old(field(gc_of(self), '_book_block'))")]),
-                3: dict(modifies=["_statements"], invariant=RT_INV + RT_COLS + RT_MEMBERS + RT_BOOK)})
+                3: dict(modifies=["_statements"], ghost_mods=["g_src", "g_clr"], invariant=RT_INV + RT_COLS + RT_MEMBERS + RT_BOOK + RT_CLEAR)})
 
 # ---- per-backend booking / fill statement factories: one virtual contract, every override verified against it -------
 BOOKT = "func_adl_xAOD.common.statement.book_ttree"
